@@ -153,7 +153,7 @@ Definition rhs (m : mdl) (c : cache) (y : list val) (t : Z) : res (list val) :=
 
 (** the harness' integrator (harness/c09_integ.py): explicit Euler, one step per interval,
     IntegrationFailure as soon as a component leaves [-LIMIT, LIMIT] *)
-Definition LIMIT : Z := 1048576.
+Definition LIMIT : Z := 4096.
 Definition in_limit (y : list val) : bool :=
   forallb (fun v => match v with Num z => Z.leb (Z.abs z) LIMIT | NaN => false end) y.
 
